@@ -208,27 +208,39 @@ Proof.
   - exists []. split; [reflexivity | intros x []].
 Qed.
 
+Lemma chain_unfold n qs id :
+  chain (S n) qs id =
+  match find_queue qs id with
+  | None => Done []
+  | Some q => match chain n qs (q_parent q) with
+              | Done l => Done (id :: l) | OutOfFuel => OutOfFuel | Panic => Panic end
+  end.
+Proof. reflexivity. Qed.
+
+Lemma shape_id g q : same_shape g -> q_id (g q) = q_id q.
+Proof. intro G. pose proof (G q) as S. unfold skel in S. congruence. Qed.
+
 Lemma walk_update_spec f qs id g :
   same_shape g ->
   forall qs', walk_update f qs id g = Done qs' ->
   exists l, chain f qs id = Done l /\ qs' = map (sel l g) qs.
 Proof.
   intro G. revert qs id. induction f as [|n IH]; intros qs id qs' H; [discriminate|].
-  cbn in H. pose proof (eq_refl (chain (S n) qs id)) as C0. cbn [chain] in C0 at 2.
-  cbn [chain]. destruct (find_queue qs id) as [q|] eqn:F.
+  cbn in H. destruct (find_queue qs id) as [q|] eqn:F.
   - rewrite update_as_sel in H.
     destruct (IH _ _ _ H) as (l0 & E & ->).
     rewrite (chain_skel n _ qs _ (skel_map _ _ (sel_shape _ _ G))) in E.
-    rewrite E in C0 |- *. exists (id :: l0). split; [reflexivity|].
+    assert (chain (S n) qs id = Done (id :: l0)) as C0 by (rewrite chain_unfold, F, E; reflexivity).
+    exists (id :: l0). split; [exact C0|].
     pose proof (chain_nodup _ _ _ _ C0) as ND. inversion ND as [|? ? NI _]; subst.
-    rewrite map_map. apply map_ext. intro a. unfold sel at 1 2 3. unfold mem at 2 3. cbn [existsb].
-    rewrite orb_false_r.
+    apply mem_false in NI.
+    rewrite map_map. apply map_ext. intro a. unfold sel.
+    replace (mem (q_id a) [id]) with (Pos.eqb (q_id a) id) by (unfold mem; cbn; rewrite orb_false_r; reflexivity).
+    replace (mem (q_id a) (id :: l0)) with (Pos.eqb (q_id a) id || mem (q_id a) l0)%bool by reflexivity.
     destruct (Pos.eqb (q_id a) id) eqn:Ea.
-    + apply Pos.eqb_eq in Ea.
-      assert (q_id (g a) = q_id a) as -> by (pose proof (G a) as S; unfold skel in S; congruence).
-      rewrite Ea. apply mem_false in NI. unfold mem in NI. rewrite NI. reflexivity.
+    + apply Pos.eqb_eq in Ea. rewrite (shape_id _ _ G), Ea, NI. reflexivity.
     + reflexivity.
-  - injection H as <-. exists []. split; [reflexivity|].
+  - injection H as <-. exists []. split; [rewrite chain_unfold, F; reflexivity|].
     symmetry. erewrite map_ext; [apply map_id|]. intro a. reflexivity.
 Qed.
 
@@ -241,14 +253,6 @@ Proof.
   assert (q_id a = q_id a') as -> by (unfold skel in Ha; congruence).
   rewrite (IH _ _ Hr). reflexivity.
 Qed.
-
-Lemma wf_forest_skel qs qs' : map skel qs = map skel qs' -> wf_forest qs = wf_forest qs'.
-Proof.
-  intro H. unfold wf_forest. rewrite (nodup_ids_skel _ _ _ H). f_equal.
-  unfold default_fuel. rewrite (skel_length _ _ H).
-  revert qs' H. induction qs as [|a qs IH]; intros [|a' qs'] H; try discriminate; [reflexivity|].
-  (* the chain is taken in the full lists; generalise *)
-Abort.
 
 Lemma forallb_skel (P P' : queue -> bool) qs :
   forall qs', map skel qs = map skel qs' ->
@@ -308,4 +312,766 @@ Lemma wf_find qs q : wf_forest qs = true -> In q qs -> find_queue qs (q_id q) = 
 Proof.
   intros W I. unfold wf_forest in W. apply andb_prop in W. destruct W as [W _].
   apply find_in_nodup; [apply (nodup_ids_spec _ _ W) | exact I].
+Qed.
+
+(** * Ground-truth sums *)
+
+Lemma in_subtree_skel qs qs' a d : map skel qs = map skel qs' -> in_subtree qs a d = in_subtree qs' a d.
+Proof.
+  intro H. unfold in_subtree, default_fuel. rewrite (skel_length _ _ H), (chain_skel _ _ _ _ H). reflexivity.
+Qed.
+
+Lemma charged_skel np qs qs' led a r :
+  map skel qs = map skel qs' -> charged np qs led a r = charged np qs' led a r.
+Proof.
+  intro H. unfold charged. induction led as [|e led IH]; cbn; [reflexivity|].
+  rewrite IH, (in_subtree_skel _ _ _ _ H). reflexivity.
+Qed.
+
+Definition contrib (np : bool) (qs : list queue) (a : positive) (r : res) (e : entry) : Q :=
+  if in_subtree qs a (e_queue e) && (negb np || negb (e_preempt e)) then rget (e_charge e) r else 0.
+
+Lemma charged_cons np qs e led a r :
+  charged np qs (e :: led) a r == contrib np qs a r e + charged np qs led a r.
+Proof.
+  unfold contrib. cbn [charged fold_right].
+  fold (charged np qs led a r).
+  destruct (in_subtree qs a (e_queue e) && (negb np || negb (e_preempt e))); lra.
+Qed.
+
+Lemma charged_take np qs a r tid :
+  forall led e rest, take_entry tid led = Some (e, rest) ->
+  charged np qs led a r == contrib np qs a r e + charged np qs rest a r.
+Proof.
+  induction led as [|x led IH]; intros e rest H; [discriminate|].
+  cbn in H. destruct (Pos.eqb (e_task x) tid).
+  - injection H as <- <-. apply charged_cons.
+  - destruct (take_entry tid led) as [[y r']|] eqn:T; [|discriminate].
+    injection H as <- <-. rewrite !charged_cons, (IH _ _ eq_refl). lra.
+Qed.
+
+Lemma take_entry_in tid : forall led e rest, take_entry tid led = Some (e, rest) ->
+  In e led /\ forall x, In x rest -> In x led.
+Proof.
+  induction led as [|x led IH]; intros e rest H; [discriminate|].
+  cbn in H. destruct (Pos.eqb (e_task x) tid).
+  - injection H as <- <-. split; [left; reflexivity | intros y I; right; exact I].
+  - destruct (take_entry tid led) as [[y r']|] eqn:T; [|discriminate].
+    injection H as <- <-. destruct (IH _ _ eq_refl) as [I S]. split; [right; exact I|].
+    intros z [<- | Iz]; [left; reflexivity | right; apply S; exact Iz].
+Qed.
+
+(** * Counters *)
+
+Definition cnt (np : bool) (q : queue) : rq := if np then q_np q else q_alloc q.
+Definition active (np pre : bool) : bool := negb np || negb pre.
+Definition signed (add : bool) (x : Q) : Q := if add then x else - x.
+
+Lemma cnt_bump k add pre c q r :
+  rget (cnt k (bump add (negb pre) c q)) r ==
+  rget (cnt k q) r + (if active k pre then signed add (rget c r) else 0).
+Proof.
+  unfold cnt, active, bump, signed. destruct k, pre, add; cbn [negb orb q_np q_alloc];
+    rewrite ?rget_add, ?rget_sub; lra.
+Qed.
+
+Definition exact (qs : list queue) (led : list entry) : Prop :=
+  forall q, In q qs -> forall k r, rget (cnt k q) r == charged k qs led (q_id q) r.
+
+Lemma counters_exact_iff s : counters_exact s <-> exact (s_queues s) (s_ledger s).
+Proof.
+  unfold counters_exact, exact. split.
+  - intros H q I k r. destruct (H q I r) as [A B]. destruct k; assumption.
+  - intros H q I r. split; [apply (H q I false r) | apply (H q I true r)].
+Qed.
+
+Lemma handler_spec add fuel qs jq pre c qs' :
+  handler add fuel qs jq pre c = Done qs' ->
+  exists l, chain fuel qs jq = Done l /\ qs' = map (sel l (bump add (negb pre) c)) qs.
+Proof.
+  unfold handler. destruct (find_queue qs jq); [|discriminate].
+  apply walk_update_spec. apply bump_shape.
+Qed.
+
+Lemma in_subtree_chain qs fuel a d l :
+  wf_forest qs = true -> chain fuel qs d = Done l -> in_subtree qs a d = mem a l.
+Proof.
+  intros W C. unfold in_subtree. destruct (wf_chain _ W d) as (l' & C').
+  rewrite C'. rewrite (chain_det _ _ _ _ _ _ C' C). reflexivity.
+Qed.
+
+Lemma contrib_entry k qs fuel a r tid jq pre c l :
+  wf_forest qs = true -> chain fuel qs jq = Done l ->
+  contrib k qs a r {| e_task := tid; e_queue := jq; e_preempt := pre; e_charge := c |}
+  = if mem a l && active k pre then rget c r else 0.
+Proof.
+  intros W C. unfold contrib, active. cbn [e_queue e_preempt e_charge].
+  rewrite (in_subtree_chain _ _ _ _ _ W C). reflexivity.
+Qed.
+
+Lemma exact_bump add qs led led' fuel jq pre c l :
+  wf_forest qs = true -> exact qs led -> chain fuel qs jq = Done l ->
+  (forall k a r, charged k qs led' a r ==
+                 charged k qs led a r + (if mem a l && active k pre then signed add (rget c r) else 0)) ->
+  exact (map (sel l (bump add (negb pre) c)) qs) led'.
+Proof.
+  intros W E C L q' I' k r. apply in_map_iff in I'. destruct I' as (q0 & <- & I0).
+  assert (same_shape (sel l (bump add (negb pre) c))) as SS by (apply sel_shape, bump_shape).
+  rewrite (shape_id _ _ SS).
+  rewrite (charged_skel k _ qs led' _ r (skel_map _ _ SS)).
+  rewrite L, <- (E q0 I0 k r). unfold sel.
+  destruct (mem (q_id q0) l); cbn [andb].
+  - apply cnt_bump.
+  - lra.
+Qed.
+
+Lemma wf_sel qs l g : same_shape g -> wf_forest (map (sel l g) qs) = wf_forest qs.
+Proof. intro G. apply wf_forest_skel. apply skel_map. apply sel_shape. exact G. Qed.
+
+(** one accepted task *)
+Lemma exact_alloc qs led fuel jq pre c tid qs' :
+  wf_forest qs = true -> exact qs led ->
+  alloc_handler fuel qs jq pre c = Done qs' ->
+  exact qs' ({| e_task := tid; e_queue := jq; e_preempt := pre; e_charge := c |} :: led)
+  /\ map skel qs' = map skel qs.
+Proof.
+  intros W E H. destruct (handler_spec _ _ _ _ _ _ _ H) as (l & C & ->). split.
+  - eapply (exact_bump true); eauto. intros k a r.
+    rewrite charged_cons, (contrib_entry _ _ _ _ _ _ _ _ _ _ W C). unfold signed. lra.
+  - apply skel_map. apply sel_shape, bump_shape.
+Qed.
+
+Lemma exact_dealloc qs led fuel tid e rest qs' :
+  wf_forest qs = true -> exact qs led ->
+  take_entry tid led = Some (e, rest) ->
+  dealloc_handler fuel qs (e_queue e) (e_preempt e) (e_charge e) = Done qs' ->
+  exact qs' rest /\ map skel qs' = map skel qs.
+Proof.
+  intros W E T H. destruct (handler_spec _ _ _ _ _ _ _ H) as (l & C & ->). split.
+  - eapply (exact_bump false); eauto. intros k a r.
+    rewrite (charged_take k qs a r tid _ _ _ T).
+    destruct e as [et eq ep ec]. cbn [e_queue e_preempt e_charge] in *.
+    rewrite (contrib_entry _ _ _ _ _ _ _ _ _ _ W C). unfold signed.
+    destruct (mem a l && active k ep); lra.
+  - apply skel_map. apply sel_shape, bump_shape.
+Qed.
+
+Lemma accept_tasks_exact fuel jq pre led :
+  forall ts qs acc qs' es,
+  wf_forest qs = true -> exact qs (acc ++ led) ->
+  admit_tasks fuel qs jq pre ts acc = Done (Accepted qs' es) ->
+  exact qs' (es ++ led) /\ map skel qs' = map skel qs.
+Proof.
+  induction ts as [|[t nm] ts IH]; intros qs acc qs' es W E H.
+  - cbn in H. injection H as <- <-. split; [exact E | reflexivity].
+  - cbn [admit_tasks] in H.
+    destruct (is_task_allocation_on_node_over_capacity fuel qs jq pre t nm) as [[| |]| |]; try discriminate.
+    destruct (alloc_handler fuel qs jq pre (charge nm t)) as [qs1| |] eqn:A; try discriminate.
+    destruct (exact_alloc _ _ _ _ _ _ (t_id t) _ W E A) as [E1 S1].
+    assert (wf_forest qs1 = true) as W1 by (rewrite (wf_forest_skel _ _ S1); exact W).
+    destruct (IH _ ({| e_task := t_id t; e_queue := jq; e_preempt := pre; e_charge := charge nm t |} :: acc) _ _ W1 E1 H)
+      as [E2 S2]. split; [exact E2 | congruence].
+Qed.
+
+Record inv (s0 s : state) : Prop := {
+  inv_wf : wf_forest (s_queues s) = true;
+  inv_exact : exact (s_queues s) (s_ledger s);
+  inv_skel : map skel (s_queues s) = map skel (s_queues s0);
+}.
+
+Lemma step_inv fuel s0 s x s' : inv s0 s -> do_step fuel s x = Done s' -> inv s0 s'.
+Proof.
+  intros [W E S] H. destruct x as [j | tid]; cbn [do_step] in H.
+  - unfold admit_job in H.
+    destruct (is_job_over_queue_capacity fuel (s_queues s) (j_queue j) (j_preempt j) (map fst (j_tasks j)))
+      as [[| |]| |]; try discriminate; try (injection H as <-; constructor; assumption).
+    destruct (admit_tasks fuel (s_queues s) (j_queue j) (j_preempt j) (j_tasks j) []) as [[qs es|v]| |] eqn:A;
+      try discriminate.
+    + injection H as <-. destruct (accept_tasks_exact fuel (j_queue j) (j_preempt j) (s_ledger s) _ _ [] _ _ W E A) as [E2 S2].
+      constructor; cbn [s_queues s_ledger].
+      * rewrite (wf_forest_skel _ _ S2). exact W.
+      * exact E2.
+      * congruence.
+    + injection H as <-. constructor; assumption.
+  - destruct (take_entry tid (s_ledger s)) as [[e rest]|] eqn:T.
+    + destruct (dealloc_handler fuel (s_queues s) (e_queue e) (e_preempt e) (e_charge e)) as [qs| |] eqn:D;
+        try discriminate.
+      injection H as <-. destruct (exact_dealloc _ _ _ _ _ _ _ W E T D) as [E2 S2].
+      constructor; cbn [s_queues s_ledger].
+      * rewrite (wf_forest_skel _ _ S2). exact W.
+      * exact E2.
+      * congruence.
+    + injection H as <-. constructor; assumption.
+Qed.
+
+Lemma run_inv fuel s0 : forall xs s s', inv s0 s -> run fuel s xs = Done s' -> inv s0 s'.
+Proof.
+  induction xs as [|x xs IH]; intros s s' I H; cbn in H.
+  - injection H as <-. exact I.
+  - destruct (do_step fuel s x) as [s1| |] eqn:D; try discriminate.
+    eapply IH; [eapply step_inv; eauto | exact H].
+Qed.
+
+(** (1) the counters equal the sum over the tasks currently charged in the subtree *)
+Theorem queue_counters_exact :
+  forall (fuel : nat) (s0 s : state) (xs : list step),
+    wf_forest (s_queues s0) = true -> counters_exact s0 ->
+    run fuel s0 xs = Done s -> counters_exact s.
+Proof.
+  intros fuel s0 s xs W E H. apply counters_exact_iff.
+  apply (inv_exact s0 s). eapply run_inv; [|exact H].
+  constructor; [exact W | apply counters_exact_iff; exact E | reflexivity].
+Qed.
+
+(** * Gates *)
+
+Definition val (k : bool) (qs : list queue) (id : positive) (r : res) : Q :=
+  match find_queue qs id with Some q => rget (cnt k q) r | None => 0 end.
+
+Lemma limit_shape k q q' : skel q = skel q' -> limit_of k q = limit_of k q'.
+Proof. unfold skel, limit_of. intro H. destruct k; congruence. Qed.
+
+Lemma val_sel k add qs l pre c x r q :
+  find_queue qs x = Some q ->
+  val k (map (sel l (bump add (negb pre) c)) qs) x r ==
+  val k qs x r + (if mem x l && active k pre then signed add (rget c r) else 0).
+Proof.
+  intro F. unfold val. rewrite (find_map _ _ _ (sel_shape _ _ (bump_shape _ _ _))), F. cbn [option_map].
+  destruct (find_queue_some _ _ _ F) as [Eid _]. unfold sel. rewrite Eid.
+  destruct (mem x l); cbn [andb]; [apply cnt_bump | lra].
+Qed.
+
+Lemma both_checks_ok f qs jq pre req :
+  both_checks f qs jq pre req = Done Schedulable ->
+  forall k, active k pre = true ->
+  exists l, chain f qs jq = Done l /\
+            forall x, In x l -> exists q, find_queue qs x = Some q /\
+                                          exceeds (limit_of k q) (cnt k q) req = false.
+Proof.
+  unfold both_checks, results_over_limit, results_np_over_quota. intros H k A.
+  destruct (walk_check f qs jq (fun q => is_over_limit q req)) as [[o|]| |] eqn:W1; try discriminate.
+  destruct k.
+  - unfold active in A. cbn in A. apply negb_true_iff in A. subst pre.
+    destruct (walk_check f qs jq (fun q => is_np_over_quota q req)) as [[o|]| |] eqn:W2; try discriminate.
+    apply walk_check_none in W2. exact W2.
+  - apply walk_check_none in W1. exact W1.
+Qed.
+
+Definition sumr (f : task * positive -> rq) (ts : list (task * positive)) (r : res) : Q :=
+  fold_right (fun tn acc => rget (f tn) r + acc) 0 ts.
+
+Definition charge_of (tn : task * positive) : rq := charge (snd tn) (fst tn).
+Definition jobreq_of (tn : task * positive) : rq := job_task_request (fst tn).
+Definition nodereq_of (tn : task * positive) : rq := node_task_request (snd tn) (fst tn).
+
+Lemma job_request_sum r : forall ts acc,
+  rget (fold_left (fun a t => rq_add a (job_task_request t)) (map fst ts) acc) r
+  == rget acc r + sumr jobreq_of ts r.
+Proof.
+  induction ts as [|tn ts IH]; intro acc; cbn [map fold_left sumr fold_right].
+  - lra.
+  - rewrite IH, rget_add. fold (sumr jobreq_of ts r). unfold jobreq_of at 2. lra.
+Qed.
+
+Lemma sumr_le f g ts r :
+  (forall tn, In tn ts -> rget (f tn) r <= rget (g tn) r) -> sumr f ts r <= sumr g ts r.
+Proof.
+  induction ts as [|tn ts IH]; intro H; cbn [sumr fold_right]; [lra|].
+  fold (sumr f ts r) (sumr g ts r).
+  pose proof (H tn (or_introl eq_refl)). pose proof (IH (fun x I => H x (or_intror I))). lra.
+Qed.
+
+(** the counters after an accepted job: every queue on the chain moved by the sum of the charges *)
+Lemma accept_tasks_val fuel jq pre l :
+  forall ts qs acc qs' es,
+  chain fuel qs jq = Done l ->
+  admit_tasks fuel qs jq pre ts acc = Done (Accepted qs' es) ->
+  forall k x r q, find_queue qs x = Some q ->
+    val k qs' x r == val k qs x r + (if mem x l && active k pre then sumr charge_of ts r else 0).
+Proof.
+  induction ts as [|[t nm] ts IH]; intros qs acc qs' es C H k x r q F.
+  - cbn in H. injection H as <- <-. cbn. destruct (mem x l && active k pre); lra.
+  - cbn [admit_tasks] in H.
+    destruct (is_task_allocation_on_node_over_capacity fuel qs jq pre t nm) as [[| |]| |]; try discriminate.
+    destruct (alloc_handler fuel qs jq pre (charge nm t)) as [qs1| |] eqn:A; try discriminate.
+    destruct (handler_spec _ _ _ _ _ _ _ A) as (l1 & C1 & ->).
+    rewrite (chain_det _ _ _ _ _ _ C1 C) in *. clear C1.
+    assert (same_shape (sel l (bump true (negb pre) (charge nm t)))) as SS by (apply sel_shape, bump_shape).
+    assert (chain fuel (map (sel l (bump true (negb pre) (charge nm t))) qs) jq = Done l) as C2
+      by (rewrite (chain_skel _ _ qs _ (skel_map _ _ SS)); exact C).
+    assert (find_queue (map (sel l (bump true (negb pre) (charge nm t))) qs) x
+            = Some (sel l (bump true (negb pre) (charge nm t)) q)) as F2
+      by (rewrite (find_map _ _ _ SS), F; reflexivity).
+    rewrite (IH _ _ _ _ C2 H k x r _ F2), (val_sel k true qs l pre _ x r q F).
+    cbn [sumr fold_right]. fold (sumr charge_of ts r). unfold charge_of at 2. cbn [fst snd signed].
+    destruct (mem x l && active k pre); lra.
+Qed.
+
+Lemma forallb_in {A} (f : A -> bool) l : forallb f l = true -> forall x, In x l -> f x = true.
+Proof. intro H. apply forallb_forall. exact H. Qed.
+
+(** every task is bounded by what the job-level gate summed for it *)
+Lemma job_covered_within fuel qs j qs' es :
+  forallb job_covers (j_tasks j) = true ->
+  admit_job fuel qs j = Done (Accepted qs' es) ->
+  forall k x r q, find_queue qs x = Some q ->
+    ~ rget (limit_of k q) r == unlimited ->
+    val k qs x r < val k qs' x r -> val k qs' x r <= rget (limit_of k q) r.
+Proof.
+  intros JC H k x r q F NU R. unfold admit_job, is_job_over_queue_capacity in H.
+  destruct (both_checks fuel qs (j_queue j) (j_preempt j) (job_request (map fst (j_tasks j))))
+    as [[| |]| |] eqn:G; try discriminate.
+  destruct (both_checks_ok _ _ _ _ _ G false eq_refl) as (l & C & _).
+  pose proof (accept_tasks_val _ _ _ _ _ _ _ _ _ C H k x r q F) as V.
+  destruct (mem x l && active k (j_preempt j)) eqn:Cond; [|lra].
+  apply andb_prop in Cond. destruct Cond as [M A].
+  destruct (both_checks_ok _ _ _ _ _ G k A) as (l' & C' & Ex).
+  rewrite (chain_det _ _ _ _ _ _ C' C) in Ex. apply mem_true in M.
+  destruct (Ex x M) as (q2 & F2 & X). rewrite F in F2. injection F2 as <-.
+  assert (sumr charge_of (j_tasks j) r <= sumr jobreq_of (j_tasks j) r) as LE.
+  { apply sumr_le. intros [t nm] I. pose proof (forallb_in _ _ JC _ I) as B.
+    change (rq_le (charge nm t) (job_task_request t) = true) in B.
+    apply (rq_le_spec _ _ B). }
+  pose proof (job_request_sum r (j_tasks j) rq_zero) as JR.
+  fold (job_request (map fst (j_tasks j))) in JR.
+  replace (rget rq_zero r) with 0 in JR by (destruct r; reflexivity).
+  assert (val k qs x r = rget (cnt k q) r) as Vq by (unfold val; rewrite F; reflexivity).
+  destruct (exceeds_false _ _ _ X r) as [U | [Z | B]]; [contradiction | | ].
+  - clear - R V LE JR Z. lra.
+  - rewrite Vq in *. clear - R V LE JR B. lra.
+Qed.
+
+(** every task is bounded by what the node-level gate checked for it *)
+Lemma node_covered_step fuel jq pre (B : bool -> positive -> res -> Q) :
+  forall ts qs acc qs' es,
+  forallb wf_task ts = true -> forallb node_covers ts = true ->
+  admit_tasks fuel qs jq pre ts acc = Done (Accepted qs' es) ->
+  (forall k x r q, find_queue qs x = Some q -> ~ rget (limit_of k q) r == unlimited ->
+                   val k qs x r <= rget (limit_of k q) r \/ val k qs x r <= B k x r) ->
+  (forall k x r q, find_queue qs' x = Some q -> ~ rget (limit_of k q) r == unlimited ->
+                   val k qs' x r <= rget (limit_of k q) r \/ val k qs' x r <= B k x r).
+Proof.
+  induction ts as [|[t nm] ts IH]; intros qs acc qs' es WT NC H Inv.
+  - cbn in H. injection H as <- <-. exact Inv.
+  - cbn [admit_tasks] in H. cbn [forallb] in WT, NC.
+    apply andb_prop in WT. destruct WT as [WT1 WT]. apply andb_prop in NC. destruct NC as [NC1 NC].
+    unfold is_task_allocation_on_node_over_capacity in H.
+    destruct (both_checks fuel qs jq pre (node_task_request nm t)) as [[| |]| |] eqn:G; try discriminate.
+    destruct (alloc_handler fuel qs jq pre (charge nm t)) as [qs1| |] eqn:A; try discriminate.
+    destruct (handler_spec _ _ _ _ _ _ _ A) as (l & C & ->).
+    assert (same_shape (sel l (bump true (negb pre) (charge nm t)))) as SS by (apply sel_shape, bump_shape).
+    apply (IH _ _ _ _ WT NC H). clear IH H.
+    intros k x r q1 F1 NU1.
+    rewrite (find_map _ _ _ SS) in F1. destruct (find_queue qs x) as [q0|] eqn:F0; [|discriminate].
+    cbn [option_map] in F1. injection F1 as <-.
+    rewrite (limit_shape k _ q0 (SS q0)) in *.
+    rewrite (val_sel k true qs l pre _ x r q0 F0). cbn [signed].
+    destruct (mem x l && active k pre) eqn:Cond.
+    + apply andb_prop in Cond. destruct Cond as [M Act]. apply mem_true in M.
+      destruct (both_checks_ok _ _ _ _ _ G k Act) as (l' & C' & Ex).
+      rewrite (chain_det _ _ _ _ _ _ C' C) in Ex.
+      destruct (Ex x M) as (q2 & F2 & X). rewrite F0 in F2. injection F2 as <-.
+      change (rq_nonneg (job_task_request t) && rq_nonneg (node_task_request nm t) && rq_nonneg (charge nm t) = true)%bool in WT1.
+      change (rq_le (charge nm t) (node_task_request nm t) = true) in NC1.
+      apply andb_prop in WT1. destruct WT1 as [_ CN].
+      pose proof (rq_nonneg_spec _ CN r) as C0. pose proof (rq_le_spec _ _ NC1 r) as CU.
+      assert (val k qs x r = rget (cnt k q0) r) as Vq by (unfold val; rewrite F0; reflexivity).
+      destruct (exceeds_false _ _ _ X r) as [U | [Z | Bd]]; [contradiction | | ].
+      * destruct (Inv k x r q0 F0 NU1) as [I1|I1]; [left | right]; clear - I1 Z C0 CU; lra.
+      * left. rewrite Vq. clear - Bd C0 CU. lra.
+    + destruct (Inv k x r q0 F0 NU1) as [I1|I1]; [left | right]; clear - I1; lra.
+Qed.
+
+Lemma node_covered_within fuel qs j qs' es :
+  wf_job j = true -> forallb node_covers (j_tasks j) = true ->
+  admit_job fuel qs j = Done (Accepted qs' es) ->
+  map skel qs' = map skel qs ->
+  forall k x r q, find_queue qs x = Some q ->
+    ~ rget (limit_of k q) r == unlimited ->
+    val k qs x r < val k qs' x r -> val k qs' x r <= rget (limit_of k q) r.
+Proof.
+  intros WJ NC H SK k x r q F NU R. unfold admit_job in H.
+  destruct (is_job_over_queue_capacity fuel qs (j_queue j) (j_preempt j) (map fst (j_tasks j)))
+    as [[| |]| |]; try discriminate.
+  pose proof (find_skel qs' qs x SK) as FS. rewrite F in FS.
+  destruct (find_queue qs' x) as [q'|] eqn:F'; [|contradiction].
+  pose proof (node_covered_step fuel (j_queue j) (j_preempt j) (fun k x r => val k qs x r)
+                _ _ _ _ _ WJ NC H) as N.
+  assert (forall k x r q, find_queue qs x = Some q -> ~ rget (limit_of k q) r == unlimited ->
+            val k qs x r <= rget (limit_of k q) r \/ val k qs x r <= val k qs x r) as I0
+    by (intros; right; lra).
+  specialize (N I0 k x r q' F'). rewrite (limit_shape k _ _ FS) in N.
+  destruct (N NU) as [N1|N1]; clear - N1 R; lra.
+Qed.
+
+(** * From counters to ground truth, along sequences *)
+
+Lemma accept_tasks_entries fuel jq pre :
+  forall ts qs acc qs' es,
+  admit_tasks fuel qs jq pre ts acc = Done (Accepted qs' es) ->
+  forall e, In e es -> In e acc \/ exists t nm, In (t, nm) ts /\ e_charge e = charge nm t.
+Proof.
+  induction ts as [|[t nm] ts IH]; intros qs acc qs' es H e I.
+  - cbn in H. injection H as <- <-. left. exact I.
+  - cbn [admit_tasks] in H.
+    destruct (is_task_allocation_on_node_over_capacity fuel qs jq pre t nm) as [[| |]| |]; try discriminate.
+    destruct (alloc_handler fuel qs jq pre (charge nm t)) as [qs1| |]; try discriminate.
+    destruct (IH _ _ _ _ H e I) as [[<- | Ia] | (t' & nm' & It & Ec)].
+    + right. exists t, nm. split; [left; reflexivity | reflexivity].
+    + left. exact Ia.
+    + right. exists t', nm'. split; [right; exact It | exact Ec].
+Qed.
+
+Lemma step_nonneg fuel s x s' :
+  ledger_nonneg s = true -> (forall j, x = AdmitJob j -> wf_job j = true) ->
+  do_step fuel s x = Done s' -> ledger_nonneg s' = true.
+Proof.
+  unfold ledger_nonneg. intros N WJ H. destruct x as [j | tid]; cbn [do_step] in H.
+  - destruct (admit_job fuel (s_queues s) j) as [[qs es|v]| |] eqn:A; try discriminate;
+      injection H as <-; [|exact N].
+    cbn [s_ledger]. rewrite forallb_app, N, andb_true_r. apply forallb_forall. intros e I.
+    unfold admit_job in A.
+    destruct (is_job_over_queue_capacity fuel (s_queues s) (j_queue j) (j_preempt j) (map fst (j_tasks j)))
+      as [[| |]| |]; try discriminate.
+    destruct (accept_tasks_entries _ _ _ _ _ _ _ _ A e I) as [[] | (t & nm & It & ->)].
+    pose proof (forallb_in _ _ (WJ j eq_refl) _ It) as WT.
+    change (rq_nonneg (job_task_request t) && rq_nonneg (node_task_request nm t) && rq_nonneg (charge nm t) = true)%bool in WT.
+    apply andb_prop in WT. apply WT.
+  - destruct (take_entry tid (s_ledger s)) as [[e rest]|] eqn:T; [|injection H as <-; exact N].
+    destruct (dealloc_handler fuel (s_queues s) (e_queue e) (e_preempt e) (e_charge e)); try discriminate.
+    injection H as <-. cbn [s_ledger]. apply forallb_forall. intros y I.
+    apply (forallb_in _ _ N). destruct (take_entry_in _ _ _ _ T) as [_ Sub]. apply Sub. exact I.
+Qed.
+
+Lemma run_nonneg fuel : forall xs s s',
+  ledger_nonneg s = true -> accepts_ok wf_job xs -> run fuel s xs = Done s' -> ledger_nonneg s' = true.
+Proof.
+  induction xs as [|x xs IH]; intros s s' N A H; cbn in H.
+  - injection H as <-. exact N.
+  - destruct (do_step fuel s x) as [s1| |] eqn:D; try discriminate.
+    apply (IH s1 s'); [|intros j I; apply A; right; exact I | exact H].
+    apply (step_nonneg fuel s x s1 N); [|exact D]. intros j ->. apply A. left. reflexivity.
+Qed.
+
+Lemma contrib_nonneg k qs a r e : rq_nonneg (e_charge e) = true -> 0 <= contrib k qs a r e.
+Proof.
+  intro N. unfold contrib. destruct (in_subtree qs a (e_queue e) && (negb k || negb (e_preempt e))); [|lra].
+  apply rq_nonneg_spec. exact N.
+Qed.
+
+Lemma val_charged k qs led q r :
+  wf_forest qs = true -> exact qs led -> In q qs ->
+  val k qs (q_id q) r == charged k qs led (q_id q) r.
+Proof.
+  intros W E I. unfold val. rewrite (wf_find _ _ W I). apply E. exact I.
+Qed.
+
+(** one decision from a consistent state *)
+Lemma step_raise_within k fuel s0 s x s' :
+  inv s0 s -> ledger_nonneg s = true ->
+  (forall j, x = AdmitJob j -> wf_job j = true) ->
+  (forall j, x = AdmitJob j -> covered j = true) ->
+  do_step fuel s x = Done s' ->
+  raise_within k s s'.
+Proof.
+  intros I N WJ CV H. pose proof (step_inv _ _ _ _ _ I H) as I'.
+  destruct I as [W E S]. destruct I' as [W' E' S'].
+  assert (map skel (s_queues s') = map skel (s_queues s)) as SK by congruence.
+  intros q Iq r NU R.
+  pose proof (wf_find _ _ W Iq) as F.
+  pose proof (find_skel _ _ (q_id q) SK) as FS. rewrite F in FS.
+  destruct (find_queue (s_queues s') (q_id q)) as [q'|] eqn:F'; [|contradiction].
+  destruct (find_queue_some _ _ _ F') as [Eid Iq'].
+  assert (val k (s_queues s) (q_id q) r == charged k (s_queues s) (s_ledger s) (q_id q) r) as V
+    by (apply val_charged; assumption).
+  assert (val k (s_queues s') (q_id q) r == charged k (s_queues s') (s_ledger s') (q_id q) r) as V'
+    by (rewrite <- Eid; apply val_charged; assumption).
+  rewrite <- V in R. rewrite <- V' in R |- *. clear V V'.
+  destruct x as [j | tid]; cbn [do_step] in H.
+  - destruct (admit_job fuel (s_queues s) j) as [[qs es|v]| |] eqn:A; try discriminate; injection H as <-.
+    + cbn [s_queues] in *. specialize (CV j eq_refl). unfold covered in CV.
+      apply orb_prop in CV. destruct CV as [JC | NC].
+      * eapply job_covered_within; eauto.
+      * eapply node_covered_within; eauto.
+    + exfalso. clear - R. lra.
+  - destruct (take_entry tid (s_ledger s)) as [[e rest]|] eqn:T.
+    + destruct (dealloc_handler fuel (s_queues s) (e_queue e) (e_preempt e) (e_charge e)) as [qs| |] eqn:D;
+        try discriminate.
+      injection H as <-. cbn [s_queues s_ledger] in *. exfalso.
+      destruct (handler_spec _ _ _ _ _ _ _ D) as (l & C & ->).
+      rewrite (val_sel k false _ l _ _ _ r q F) in R. cbn [signed] in R.
+      assert (0 <= rget (e_charge e) r) as P.
+      { apply rq_nonneg_spec. apply (forallb_in _ _ N). destruct (take_entry_in _ _ _ _ T) as [Ie _]. exact Ie. }
+      destruct (mem (q_id q) l && active k (e_preempt e)); clear - R P; lra.
+    + injection H as <-. exfalso. clear - R. lra.
+Qed.
+
+(** (2), (3) under the hypothesis that the deciding job is covered *)
+Theorem C08_covered : forall k, C08_statement_covered k.
+Proof.
+  intros k fuel s0 s s' pre x W E N WJ CV R H.
+  assert (inv s0 s0) as I0 by (constructor; [exact W | apply counters_exact_iff; exact E | reflexivity]).
+  pose proof (run_inv _ _ _ _ _ I0 R) as I.
+  assert (ledger_nonneg s = true) as Ns.
+  { apply (run_nonneg fuel pre s0 s N); [|exact R]. intros j Ij. apply WJ. apply in_or_app. left. exact Ij. }
+  apply (step_raise_within k fuel s0 s x s' I Ns); [| |exact H].
+  - intros j ->. apply WJ. apply in_or_app. right. left. reflexivity.
+  - intros j ->. apply CV. left. reflexivity.
+Qed.
+
+(** * Fuel: |queues|+1 suffices whenever the walk terminates at all *)
+
+Lemma chain_in f qs id l : chain f qs id = Done l -> forall x, In x l -> In x (map q_id qs).
+Proof.
+  revert id l. induction f as [|n IH]; intros id l H x I; [discriminate|].
+  rewrite chain_unfold in H. destruct (find_queue qs id) as [q|] eqn:F.
+  - destruct (chain n qs (q_parent q)) as [l0| |] eqn:E; try discriminate. injection H as <-.
+    destruct I as [<- | I]; [|eapply IH; eauto].
+    destruct (find_queue_some _ _ _ F) as [<- Iq]. apply in_map. exact Iq.
+  - injection H as <-. destruct I.
+Qed.
+
+Lemma chain_len f qs id l : chain f qs id = Done l -> chain (S (length l)) qs id = Done l.
+Proof.
+  revert id l. induction f as [|n IH]; intros id l H; [discriminate|].
+  rewrite chain_unfold in H. rewrite chain_unfold. destruct (find_queue qs id) as [q|] eqn:F.
+  - destruct (chain n qs (q_parent q)) as [l0| |] eqn:E; try discriminate. injection H as <-.
+    cbn [length]. rewrite (IH _ _ E). reflexivity.
+  - injection H as <-. reflexivity.
+Qed.
+
+Theorem fuel_suffices :
+  forall (f : nat) (qs : list queue) (id : positive) (l : list positive),
+    chain f qs id = Done l -> chain (default_fuel qs) qs id = Done l.
+Proof.
+  intros f qs id l H. apply (chain_mono (S (length l))); [|apply chain_len with f; exact H].
+  unfold default_fuel. apply le_n_S. rewrite <- (map_length q_id qs).
+  apply NoDup_incl_length; [eapply chain_nodup; eauto | intros x I; eapply chain_in; eauto].
+Qed.
+
+(** * Which jobs are covered *)
+
+Lemma round_comp x y : x == y -> round_half_away x = round_half_away y.
+Proof.
+  intro E. unfold round_half_away.
+  assert (Qle_bool 0 x = Qle_bool 0 y) as -> by (apply Qleb_comp; [reflexivity | exact E]).
+  assert (Qfloor (x + (1 # 2)) = Qfloor (y + (1 # 2))) as -> by (apply Qfloor_comp; rewrite E; reflexivity).
+  assert (Qfloor (- x + (1 # 2)) = Qfloor (- y + (1 # 2))) as -> by (apply Qfloor_comp; rewrite E; reflexivity).
+  reflexivity.
+Qed.
+
+Lemma floor_half K : Qfloor (inject_Z K + (1 # 2)) = K.
+Proof.
+  unfold Qfloor, Qplus, inject_Z. cbn [Qnum Qden].
+  symmetry. apply Z.div_unique with (r := 1%Z); lia.
+Qed.
+
+Lemma round_Z K : round_half_away (inject_Z K) = K.
+Proof.
+  unfold round_half_away. destruct (Qle_bool 0 (inject_Z K)); [apply floor_half|].
+  change (- inject_Z K) with (inject_Z (- K)). rewrite floor_half. lia.
+Qed.
+
+Lemma round_nonneg x : 0 <= x -> (0 <= round_half_away x)%Z.
+Proof.
+  intro P. unfold round_half_away.
+  assert (Qle_bool 0 x = true) as -> by (apply Qle_bool_iff; exact P).
+  change 0%Z with (Qfloor 0). apply Qfloor_resp_le. lra.
+Qed.
+
+Lemma inject_nonneg z : (0 <= z)%Z -> 0 <= inject_Z z.
+Proof. intro P. change 0 with (inject_Z 0). rewrite <- Zle_Qle. exact P. Qed.
+
+Lemma ext_nonneg p c : 0 <= p -> (0 <= c)%Z -> 0 <= ext_gpus p c.
+Proof.
+  intros P C. unfold ext_gpus.
+  assert (0 <= inject_Z (round_half_away (p * 100) * c)) as I.
+  { apply inject_nonneg. apply Z.mul_nonneg_nonneg; [apply round_nonneg; lra | exact C]. }
+  unfold Qdiv. apply Qmult_le_0_compat; [exact I | discriminate].
+Qed.
+
+Lemma ext_hundredths g N : g == inject_Z N / 100 -> ext_gpus g 1 == g.
+Proof.
+  intro E. unfold ext_gpus.
+  rewrite (round_comp (g * 100) (inject_Z N)) by (rewrite E; field).
+  rewrite round_Z, Z.mul_1_r. symmetry. exact E.
+Qed.
+
+Lemma with_gpus_le g N :
+  g == inject_Z N / 100 -> 0 <= g ->
+  ext_gpus (g_portion (with_gpus g)) (g_count (with_gpus g)) <= g.
+Proof.
+  intros E P. unfold with_gpus. destruct (Qle_bool 1 g) eqn:E1.
+  - cbn [g_portion g_count]. unfold ext_gpus, Qtrunc.
+    assert (Qle_bool 0 g = true) as -> by (apply Qle_bool_iff; exact P).
+    assert (round_half_away (1 * 100) = 100%Z) as -> by (vm_compute; reflexivity).
+    rewrite inject_Z_mult. pose proof (Qfloor_le g) as F.
+    assert (inject_Z 100 * inject_Z (Qfloor g) / 100 == inject_Z (Qfloor g)) as -> by field.
+    exact F.
+  - destruct (Qltb 0 g) eqn:E2; cbn [g_portion g_count].
+    + rewrite (ext_hundredths g N E). lra.
+    + unfold ext_gpus. rewrite Z.mul_0_r. assert (inject_Z 0 / 100 == 0) as -> by reflexivity. exact P.
+Qed.
+
+Definition greq_nonneg (g : greq) : Prop :=
+  (0 <= g_count g)%Z /\ 0 <= g_portion g /\ (0 <= g_dra g)%Z /\ (0 <= mig_quota (g_mig g))%Z.
+
+(** a task without a gpu-memory request is charged at most what the
+    job-level gate summed for it *)
+Lemma job_covers_no_gpu_memory t nm :
+  (g_memory (t_gpu t) <= 0)%Z -> greq_nonneg (t_gpu t) -> job_covers (t, nm) = true.
+Proof.
+  intros M (C & P & D & G).
+  change (rq_le (charge nm t) (job_task_request t) = true).
+  unfold rq_le. cbn [forallb all_resources rget charge job_task_request r_cpu r_mem r_gpu].
+  rewrite !andb_true_r. apply andb_true_intro. split; [|apply andb_true_intro; split];
+    apply Qle_bool_iff; try apply Qle_refl.
+  unfold gpus_quota. rewrite !Qred_correct.
+  pose proof (ext_nonneg _ _ P C) as EN. pose proof (inject_nonneg _ D) as DN. pose proof (inject_nonneg _ G) as GN.
+  assert ((0 <? g_memory (t_gpu t))%Z = false) as NM by (apply Z.ltb_ge; exact M).
+  unfold accepted. destruct (t_type t); cbn [g_mig g_dra g_portion g_count]; change (mig_quota []) with 0%Z.
+  - (* Regular *)
+    pose proof (with_gpus_le (ext_gpus (g_portion (t_gpu t)) (g_count (t_gpu t)))
+                  (round_half_away (g_portion (t_gpu t) * 100) * g_count (t_gpu t))
+                  (Qeq_refl _) EN) as W.
+    change (inject_Z 0) with 0. lra.
+  - (* Fraction *)
+    unfold resource_gpu_portion. rewrite NM. change (inject_Z 0) with 0. lra.
+  - (* GpuMemory *)
+    unfold resource_gpu_portion. rewrite NM. change (inject_Z 0) with 0. lra.
+  - (* MigInstance *)
+    assert (ext_gpus 0 0 == 0) as -> by reflexivity. change (inject_Z 0) with 0. lra.
+Qed.
+
+(** a gpu-memory request on a single device is charged exactly what the
+    node-level gate checked for it *)
+Lemma node_covers_single_gpu_memory t nm :
+  (0 < g_memory (t_gpu t))%Z -> g_count (t_gpu t) = 1%Z -> g_mig (t_gpu t) = [] ->
+  t_type t = GpuMemory \/ t_type t = Fraction ->
+  node_covers (t, nm) = true.
+Proof.
+  intros M C G T.
+  change (rq_le (charge nm t) (node_task_request nm t) = true).
+  unfold rq_le. cbn [forallb all_resources rget charge node_task_request r_cpu r_mem r_gpu].
+  rewrite !andb_true_r. apply andb_true_intro. split; [|apply andb_true_intro; split];
+    apply Qle_bool_iff; try apply Qle_refl.
+  rewrite G. unfold gpus_quota. rewrite Qred_correct.
+  assert ((0 <? g_memory (t_gpu t))%Z = true) as PM by (apply Z.ltb_lt; exact M).
+  assert (accepted nm t = {| g_count := 1; g_portion := frac_on_node nm (g_memory (t_gpu t));
+                             g_memory := g_memory (t_gpu t); g_dra := 0; g_mig := [] |}) as ->.
+  { unfold accepted, resource_gpu_portion, resource_gpu_memory. rewrite PM, C. destruct T as [-> | ->]; reflexivity. }
+  cbn [g_mig g_dra g_portion g_count]. change (mig_quota []) with 0%Z.
+  unfold resource_gpu_memory. rewrite PM.
+  rewrite (ext_hundredths _ (Qceiling (inject_Z (g_memory (t_gpu t)) / inject_Z (Z.pos nm) * 100)))
+    by (unfold frac_on_node; reflexivity).
+  change (inject_Z 0) with 0. lra.
+Qed.
+
+Definition no_gpu_memory (tn : task * positive) : Prop :=
+  (g_memory (t_gpu (fst tn)) <= 0)%Z /\ greq_nonneg (t_gpu (fst tn)).
+Definition single_gpu_memory (tn : task * positive) : Prop :=
+  (0 < g_memory (t_gpu (fst tn)))%Z /\ g_count (t_gpu (fst tn)) = 1%Z /\ g_mig (t_gpu (fst tn)) = [] /\
+  (t_type (fst tn) = GpuMemory \/ t_type (fst tn) = Fraction).
+
+(** a job none of whose tasks asks for gpu-memory, or all of whose tasks ask
+    for gpu-memory on a single device, is covered *)
+Theorem covered_sufficient j :
+  (forall tn, In tn (j_tasks j) -> no_gpu_memory tn) \/
+  (forall tn, In tn (j_tasks j) -> single_gpu_memory tn) ->
+  covered j = true.
+Proof.
+  intros [H | H]; unfold covered; apply orb_true_iff; [left | right]; apply forallb_forall; intros [t nm] I.
+  - destruct (H _ I) as [M N]. apply job_covers_no_gpu_memory; assumption.
+  - destruct (H _ I) as (M & C & G & T). apply node_covers_single_gpu_memory; assumption.
+Qed.
+
+(** * Witnesses *)
+
+Lemma counters_exact_b_true s : counters_exact_b s = true -> counters_exact s.
+Proof.
+  unfold counters_exact_b, counters_exact. intros H q I r.
+  pose proof (forallb_in _ _ H q I) as Hq. cbn beta in Hq.
+  pose proof (forallb_res _ Hq r) as Hr. cbn beta in Hr.
+  apply andb_prop in Hr. destruct Hr as [A B]. split; apply Qeq_bool_iff; assumption.
+Qed.
+
+Definition w_unl : rq := {| r_cpu := -1; r_mem := -1; r_gpu := -1 |}.
+Definition w_half : rq := {| r_cpu := -1; r_mem := -1; r_gpu := 1 # 2 |}.
+Definition w_top : queue :=
+  {| q_id := 1; q_parent := 3; q_limit := w_unl; q_deserved := w_unl; q_alloc := rq_zero; q_np := rq_zero |}.
+(** GPU limit 0.5 and deserved GPU quota 0.5 *)
+Definition w_leaf : queue :=
+  {| q_id := 2; q_parent := 1; q_limit := w_half; q_deserved := w_half; q_alloc := rq_zero; q_np := rq_zero |}.
+Definition w_state : state := {| s_queues := [w_top; w_leaf]; s_ledger := [] |}.
+
+(** a gpu-memory request of 50 MiB on each of two devices (node GPUs have 100 MiB) *)
+Definition w_task : task :=
+  {| t_id := 1; t_type := GpuMemory; t_cpu := 0; t_memory := 0;
+     t_gpu := {| g_count := 2; g_portion := 0; g_memory := 50; g_dra := 0; g_mig := [] |} |}.
+Definition w_job : job := {| j_queue := 2; j_preempt := false; j_tasks := [(w_task, 100%positive)] |}.
+
+Definition w_after : state :=
+  Eval vm_compute in match do_step 3 w_state (AdmitJob w_job) with Done s => s | _ => w_state end.
+
+Lemma w_step : do_step 3 w_state (AdmitJob w_job) = Done w_after.
+Proof. vm_compute. reflexivity. Qed.
+
+(** what the two gates looked at, and what was charged *)
+Lemma w_quantities :
+  rget (job_request (map fst (j_tasks w_job))) GPU == 0 /\
+  rget (node_task_request 100 w_task) GPU == 1 # 2 /\
+  rget (charge 100 w_task) GPU == 1 /\
+  charged false (s_queues w_after) (s_ledger w_after) 2 GPU == 1 /\
+  charged true (s_queues w_after) (s_ledger w_after) 2 GPU == 1.
+Proof. repeat split; vm_compute; reflexivity. Qed.
+
+(** (2), (3) at full strength do not hold of the code as it is *)
+Theorem C08_refuted : forall k, ~ C08_statement k.
+Proof.
+  intros k H.
+  assert (raise_within k w_state w_after) as R.
+  { apply (H 3%nat w_state w_state w_after [] (AdmitJob w_job)).
+    - vm_compute. reflexivity.
+    - apply counters_exact_b_true. vm_compute. reflexivity.
+    - reflexivity.
+    - intros j [E | []]. injection E as <-. vm_compute. reflexivity.
+    - reflexivity.
+    - exact w_step. }
+  specialize (R w_leaf (or_intror (or_introl eq_refl)) GPU).
+  destruct k; vm_compute in R; apply R; try reflexivity; discriminate.
+Qed.
+
+(** non-vacuity: a covered job that is accepted and raises the leaf and its
+    parent, one that is refused, and a cyclic map on which the walk runs out of fuel *)
+Definition ok_task : task :=
+  {| t_id := 7; t_type := Fraction; t_cpu := 500; t_memory := 1000000;
+     t_gpu := {| g_count := 1; g_portion := 1 # 2; g_memory := 0; g_dra := 0; g_mig := [] |} |}.
+Definition ok_job : job := {| j_queue := 2; j_preempt := false; j_tasks := [(ok_task, 100%positive)] |}.
+Definition big_task : task :=
+  {| t_id := 8; t_type := Regular; t_cpu := 0; t_memory := 0;
+     t_gpu := {| g_count := 2; g_portion := 1; g_memory := 0; g_dra := 0; g_mig := [] |} |}.
+Definition big_job : job := {| j_queue := 2; j_preempt := true; j_tasks := [(big_task, 100%positive)] |}.
+Definition ok_after : state :=
+  Eval vm_compute in match do_step 3 w_state (AdmitJob ok_job) with Done s => s | _ => w_state end.
+Definition cyclic : list queue :=
+  [ {| q_id := 1; q_parent := 2; q_limit := w_unl; q_deserved := w_unl; q_alloc := rq_zero; q_np := rq_zero |};
+    {| q_id := 2; q_parent := 1; q_limit := w_unl; q_deserved := w_unl; q_alloc := rq_zero; q_np := rq_zero |} ].
+
+Lemma nonvacuous :
+  wf_forest (s_queues w_state) = true /\ counters_exact w_state /\ ledger_nonneg w_state = true /\
+  wf_job ok_job = true /\ covered ok_job = true /\ wf_job w_job = true /\ covered w_job = false /\
+  do_step 3 w_state (AdmitJob ok_job) = Done ok_after /\
+  charged false (s_queues w_state) (s_ledger w_state) 2 GPU < charged false (s_queues ok_after) (s_ledger ok_after) 2 GPU /\
+  charged false (s_queues ok_after) (s_ledger ok_after) 2 GPU == 1 # 2 /\
+  charged true (s_queues ok_after) (s_ledger ok_after) 1 GPU == 1 # 2 /\
+  admit_job 3 (s_queues ok_after) ok_job = Done (Refused (OverLimit 2)) /\
+  admit_job 3 (s_queues w_state) big_job = Done (Refused (OverLimit 2)) /\
+  run 3 w_state [AdmitJob ok_job; Release 7; AdmitJob ok_job] = Done ok_after /\
+  wf_forest cyclic = false /\
+  is_job_over_queue_capacity 3 cyclic 1 true [ok_task] = OutOfFuel /\
+  alloc_handler 3 (s_queues w_state) 9 true rq_zero = Panic.
+Proof.
+  split; [vm_compute; reflexivity|].
+  split; [apply counters_exact_b_true; vm_compute; reflexivity|].
+  repeat split; try (vm_compute; reflexivity); try (vm_compute; discriminate).
 Qed.
